@@ -227,18 +227,25 @@ theorem findByAlias_some {F : Family} {a : Str} {u : MUnit} (h : findByAlias F a
   exact ⟨h1, by simpa using h2⟩
 
 theorem sniffUnit_some {F : Family} {s : Str} {u : MUnit} (h : sniffUnit F s = some u) :
-    u ∈ F.units ∧ (asciiLower s ∈ u.aliases ∨
-      (2 < (asciiLower s).length ∧ trimS (asciiLower s) ∈ u.aliases)) := by
+    u ∈ F.units ∧ (asciiLower s ∈ unitNames u ∨
+      (2 < (asciiLower s).length ∧ trimS (asciiLower s) ∈ unitNames u)) := by
   unfold sniffUnit at h
-  simp only at h
   split at h
   · rename_i u' hu
     cases h
-    exact ⟨(findByAlias_some hu).1, Or.inl (findByAlias_some hu).2⟩
-  · split at h
-    · rename_i hl
-      exact ⟨(findByAlias_some h).1, Or.inr ⟨hl, (findByAlias_some h).2⟩⟩
-    · cases h
+    have h1 := List.mem_of_find?_eq_some hu
+    have h2 := List.find?_some hu
+    have : u.name = s := by simpa using h2
+    exact ⟨h1, Or.inl (by rw [← this]; simp [unitNames])⟩
+  · simp only at h
+    split at h
+    · rename_i u' hu
+      cases h
+      exact ⟨(findByAlias_some hu).1, Or.inl (List.mem_cons_of_mem _ (findByAlias_some hu).2)⟩
+    · split at h
+      · rename_i hl
+        exact ⟨(findByAlias_some h).1, Or.inr ⟨hl, List.mem_cons_of_mem _ (findByAlias_some h).2⟩⟩
+      · cases h
 
 theorem firstFamily_some {T : Table} {s : Str} {F : Family} {u : MUnit}
     (h : firstFamily T s = some (F, u)) : F ∈ T ∧ sniffUnit F s = some u := by
@@ -554,7 +561,7 @@ theorem pairwiseB_forall {α} (r : α → α → Bool) : ∀ (l : List α), pair
     · exact Or.inr (h.1 x hx')
     · exact pairwiseB_forall r l h.2 x hx' y hy' hne
 
-theorem mem_allAliases {F : Family} {u : MUnit} {a : Str} (hu : u ∈ F.units) (ha : a ∈ u.aliases) :
+theorem mem_allAliases {F : Family} {u : MUnit} {a : Str} (hu : u ∈ F.units) (ha : a ∈ unitNames u) :
     a ∈ allAliases F := by
   unfold allAliases; exact List.mem_flatMap.2 ⟨u, hu, ha⟩
 
@@ -1006,4 +1013,31 @@ theorem scaleByRatio_bounds (v : Int) (r : Q) (hd : 0 < r.den) :
     have hab : (a.natAbs : Int) = a := by omega
     have e : (r.den : Int) * q = (q : Int) * r.den := Int.mul_comm _ _
     refine ⟨?_, ?_, ?_⟩ <;> (try intro _) <;> (try constructor) <;> simp only [Int.one_mul] <;> omega
+
+theorem foldl_minStep_congr {a b : List (Int × Int)} (h : SameMagnitudes a b) (m0 : Nat) :
+    a.foldl minStep m0 = b.foldl minStep m0 := by
+  induction h generalizing m0 with
+  | nil => rfl
+  | cons h1 h2 _ ih =>
+    simp only [List.foldl_cons]
+    have : ∀ m x y, (x : Int × Int).1.natAbs = (y : Int × Int).1.natAbs → x.2.natAbs = y.2.natAbs →
+        minStep m x = minStep m y := by
+      intro m x y h1 h2; unfold minStep; rw [h1, h2]
+    rw [this _ _ _ h1 h2]
+    exact ih _
+
+theorem minMagnitude_congr {a b : List (Int × Int)} (h : SameMagnitudes a b) :
+    minMagnitude a = minMagnitude b := foldl_minStep_congr h 0
+
+theorem selectOutputUnit_congr (T : Table) {a b : List (Int × Int)} (h : SameMagnitudes a b)
+    (total : Int) (r : Q) (su : Str) (cg : Bool) :
+    selectOutputUnit T a total r su cg = selectOutputUnit T b total r su cg := by
+  unfold selectOutputUnit
+  rw [minMagnitude_congr h]
+
+theorem sameMagnitudes_neg (a : List (Int × Int)) :
+    SameMagnitudes (a.map fun n => (-n.1, -n.2)) a := by
+  induction a with
+  | nil => exact SameMagnitudes.nil
+  | cons x xs ih => exact SameMagnitudes.cons (by simp) (by simp) ih
 end PV.Measure
